@@ -532,10 +532,72 @@ def run_c14(tier, report):
     report.assumptions.append("unstructured random bytes / arbitrary Unicode are not generated: only the enumerated fault space")
 
 
+def discovery_docs():
+    """C17: one package reference in every syntactic position that can hold one, under every shape of
+    name (plain, versioned, a name that has the document's own package name as a prefix, the own
+    namespace), plus pairs of references to one package that differ in version only"""
+    paths = {"ref:pkg/item": ("ref:pkg", None), "ref:pkg/item@1.2.3": ("ref:pkg", "1.2.3"),
+             "test:comp-types/item": ("test:comp-types", None), "test:other/item@0.1.0": ("test:other", "0.1.0")}
+    names = {"ref:pkg": ("ref:pkg", None), "ref:pkg@1.2.3": ("ref:pkg", "1.2.3"), "test:comp-types": ("test:comp-types", None),
+             "test:composition@0.2.0": ("test:composition", "0.2.0")}
+    head = "package test:comp;\n"
+    path_positions = {
+        "targets": "package test:comp targets {P};\n",
+        "import by path": head + "import a: {P};\n",
+        "use in an interface": head + "interface i {{ use {P} . {{ t }}; }}\n",
+        "use in a world": head + "world w {{ use {P} . {{ t }}; }}\n",
+        "use in an inline interface of an import statement": head + "import a: interface {{ use {P} . {{ t }}; }};\n",
+        "use in an inline interface of a world import": head + "world w {{ import a: interface {{ use {P} . {{ t }}; }}; }}\n",
+        "use in an inline interface of a world export": head + "world w {{ export a: interface {{ use {P} . {{ t }}; f: func(); }}; }}\n",
+        "world import by path": head + "world w {{ import {P}; }}\n",
+        "world export by path": head + "world w {{ export {P}; }}\n",
+        "include": head + "world w {{ include {P}; }}\n",
+        "use after another use": head + "interface i {{ use first:one/x . {{ s }}; use {P} . {{ t }}; }}\n",
+    }
+    name_positions = {
+        "new": head + "let x = new {N} {{}};\n",
+        "new in a named argument": head + "let x = new a:first {{ a: new {N} {{}} }};\n",
+        "new in the third named argument": head + "let x = new a:first {{ a: b, \"c\": d, e: new {N} {{ ... }} }};\n",
+        "new in parentheses followed by an access": head + "let x = (new {N} {{}}).y;\n",
+        "new inside an access chain inside an argument": head + "let x = new a:first {{ a: (new {N} {{ ... }}).b[\"c\"], ... }};\n",
+        "new two levels deep": head + "let x = new a:first {{ a: new b:second {{ b: new {N} {{}} }} }};\n",
+        "exported new with spread": head + "export new {N} {{ ... }}...;\n",
+        "exported new with access and rename": head + "export new {N} {{}}.f as \"g\";\n",
+    }
+    extra = {"use after another use": [["first:one", None]], "new in a named argument": [["a:first", None]],
+             "new in the third named argument": [["a:first", None]], "new inside an access chain inside an argument": [["a:first", None]],
+             "new two levels deep": [["a:first", None], ["b:second", None]]}
+    docs = []
+    for pos, tmpl in path_positions.items():
+        for text, (n, v) in paths.items():
+            docs.append({"text": tmpl.format(P=text), "refs": [[n, v]] + extra.get(pos, []), "origin": f"discovery: {pos}: {text}"})
+    for pos, tmpl in name_positions.items():
+        for text, (n, v) in names.items():
+            docs.append({"text": tmpl.format(N=text), "refs": [[n, v]] + extra.get(pos, []), "origin": f"discovery: {pos}: {text}"})
+    # references to one package that differ in version only, back to back and separated
+    pairs = [("ref:pkg/x@1.0.0", "ref:pkg/y@2.0.0"), ("ref:pkg/x", "ref:pkg/y@2.0.0"), ("ref:pkg/x@1.0.0", "ref:pkg/x@1.0.1")]
+    for a, b in pairs:
+        ra = ["ref:pkg", a.split("@")[1] if "@" in a else None]
+        rb = ["ref:pkg", b.split("@")[1] if "@" in b else None]
+        docs.append({"text": head + f"import a: {a};\nimport b: {b};\n", "refs": [ra, rb], "origin": f"discovery: two versions back to back: {a} {b}"})
+        docs.append({"text": head + f"interface i {{ use {a} . {{ s }}; use {b} . {{ t }}; }}\n", "refs": [ra, rb], "origin": f"discovery: two versions in one interface: {a} {b}"})
+        docs.append({"text": head + f"import a: {a};\nimport o: other:pkg/z;\nimport b: {b};\n", "refs": [ra, ["other:pkg", None], rb],
+                     "origin": f"discovery: two versions separated: {a} {b}"})
+    docs.append({"text": head + "let a = new ref:pkg@1.0.0 {};\nlet b = new ref:pkg@2.0.0 {};\nlet c = new ref:pkg {};\n",
+                 "refs": [["ref:pkg", "1.0.0"], ["ref:pkg", "2.0.0"], ["ref:pkg", None]], "origin": "discovery: three versions of one instantiated package"})
+    for d in docs:
+        d.update({"expect": "any", "key": "discovery", "own": "test:comp", "self_new": False, "kf": []})
+    return docs
+
+
 def run_property(prop, tier, report):
     if prop == "C14":
         return run_c14(tier, report)
     docs, stats, sents = build_docs(tier)
+    if prop == "C17":
+        for d in discovery_docs():
+            d["id"] = len(docs)
+            docs.append(d)
     # the repository's own documents: accepted ones must round-trip, none may crash
     import re
     for p in repo_wac_files():
